@@ -118,7 +118,10 @@ theorem appendBatch_rinv_C7b (es : List (LogId × Bytes)) :
             (fun e he => hsm e (List.mem_cons_of_mem _ he))
             (fun e he => hwf e (List.mem_cons_of_mem _ he)) hfr
         refine ⟨seg2, s2, e1 ++ e2, ?_, by rw [← List.append_assoc]; exact h2⟩
-        unfold Store.appendBatch
+        have hidxD12 : id.index + 1 ≠ U64 := by
+          have : id.index + 1 < U64 := hsm1
+          omega
+        rw [appendBatch_cons_small_D12 _ _ _ _ _ _ _ hidxD12]
         rw [heq1]
         simp only
         rw [heq2, List.append_assoc]
@@ -233,7 +236,10 @@ theorem call_rinv_C7b {m m' : Option LogId} {s : Store} {fs : Fs} {w : Worker} {
   | purge upto =>
     simp only [freshOpC7b, Option.some.injEq] at hfr
     subst hfr
-    simp only [Store.call]
+    have hidxD12 : upto.index + 1 ≠ U64 := by
+      have : upto.index + 1 < U64 := hsm
+      omega
+    simp only [Store.call, if_neg hidxD12]
     rw [nextIndexChecked_eq h.ref.pf.purged]
     simp only [hpu]
     simp only [RefLog.call] at hc
